@@ -18,6 +18,8 @@ import (
 	"github.com/semihalev/sdns/middleware"
 	"github.com/semihalev/sdns/middleware/failover"
 	"github.com/semihalev/sdns/middleware/forwarder"
+	"io"
+	"log"
 	"net/http"
 	"net/http/httptest"
 )
@@ -159,7 +161,9 @@ func execForwarder(f []string) vlib.Res {
 			cfg.ForwarderServers = append(cfg.ForwarderServers, "https://"+addr+"/dns-query")
 		case "dohtls":
 			// a DoH upstream whose exchange fails after the request was packed (certificate not trusted / HTTP 500)
-			ts := httptest.NewTLSServer(http.HandlerFunc(func(w http.ResponseWriter, _ *http.Request) { w.WriteHeader(500) }))
+			ts := httptest.NewUnstartedServer(http.HandlerFunc(func(w http.ResponseWriter, _ *http.Request) { w.WriteHeader(500) }))
+			ts.Config.ErrorLog = log.New(io.Discard, "", 0)
+			ts.StartTLS()
 			stops = append(stops, ts.Close)
 			cfg.ForwarderServers = append(cfg.ForwarderServers, ts.URL+"/dns-query")
 		default:
